@@ -94,7 +94,19 @@ func genBig(rng *rand.Rand) *big.Int {
 	}
 }
 
-func genSliceLen(rng *rand.Rand, depth int) int {
+// genElems bounds the number of list elements of one generated value.
+var genElems int
+
+func genSliceLen(rng *rand.Rand, depth int) (n int) {
+	defer func() {
+		if n > genElems {
+			n = 0
+		}
+		genElems -= n
+	}()
+	if depth > 12 {
+		return 0
+	}
 	if depth > 1 {
 		return rng.Intn(3)
 	}
